@@ -1461,6 +1461,8 @@ class Interp:
             return False
         if isinstance(container, Rec) and self.is_namedtuple(container.cls):
             return self.contains(container.astuple(), item)
+        if isinstance(container, Ext) and hasattr(container, "sym_contains"):
+            return container.sym_contains(self, item)
         raise Undecided(f"membership in {type(container).__name__}")
 
     def e_Attribute(self, n, env):
